@@ -138,7 +138,8 @@ def strategy():
     op = st.tuples(st.integers(0, 11), st.integers(0, 16 ** 3 - 1)).map(decode_op)
     twin = st.fixed_dictionaries({
         'ops': worldops.chunked(op, 24), 'ctl_entity': st.integers(0, 15), 'variant': st.integers(0, 2),
-        'shorthand': st.integers(0, len(SHORTHANDS) - 1), 'type': st.integers(0, 4), 'after': st.integers(0, 2)})
+        'shorthand': st.integers(0, len(SHORTHANDS) - 1), 'type': st.integers(0, 4), 'after': st.integers(0, 2),
+        'valmode': st.integers(0, 2)})
     proto = st.fixed_dictionaries({
         'types': st.lists(st.integers(0, 5), min_size=1, max_size=5),
         'sources': st.lists(st.integers(0, 3), min_size=6, max_size=6),
@@ -202,7 +203,7 @@ def observe(side):
            'log': list(side.log)}
     for e in ids:
         out['e:%r' % (e,)] = {
-            'components': sorted(c.tag for c in w.get_components(e)),
+            'components': [c.tag for c in w.get_components(e)],
             'exists': w.entity_exists(e),
             'has': [w.has_component(e, T) for T in COMP],
             'get': [getattr(w.get_component(e, T), 'tag', None) for T in COMP]}
@@ -284,9 +285,21 @@ def twin_part(spec, facts):
             return ('raised', type(exc).__name__)
 
     is_ctl = isinstance(user, desper.Controller)
+    # the value assigned by add_component / ref_set: a new instance, or the very instance the entity already
+    # holds under that exact type (re-adding it is still a replacement: removed, notified, added again)
+    newA, newB = A.comp(tix, 'new'), B.comp(tix, 'new')
+    if spec.get('valmode') == 1 and sh in ('add_component', 'ref_set'):
+        heldA = [c for c in A.world.get_components(ent) if type(c) in COMP]
+        heldB = [c for c in wB.get_components(ent) if type(c) in COMP]
+        if heldA and len(heldA) == len(heldB):
+            k2 = tix % len(heldA)
+            newA, newB = heldA[k2], heldB[k2]
+            T = type(newA)
+            tix = COMP.index(T)
+            facts['assign_the_instance_already_held'] += 1
     if sh == 'add_component':
-        ra = call(lambda: user.add_component(A.comp(tix, 'new')) if is_ctl else desper.add_component(user, A.comp(tix, 'new')))
-        rb = call(lambda: wB.add_component(ent, B.comp(tix, 'new')))
+        ra = call(lambda: user.add_component(newA) if is_ctl else desper.add_component(user, newA))
+        rb = call(lambda: wB.add_component(ent, newB))
     elif sh == 'remove_component':
         ra = call(lambda: user.remove_component(T) if is_ctl else desper.remove_component(user, T))
         rb = call(lambda: wB.remove_component(ent, T))
@@ -306,8 +319,8 @@ def twin_part(spec, facts):
         ra = call(lambda: getattr(user, 'ref%d' % tix))
         rb = call(lambda: wB.get_component(ent, T))
     elif sh == 'ref_set':
-        ra = call(lambda: setattr(user, 'ref%d' % tix, A.comp(tix, 'new')))
-        rb = call(lambda: wB.add_component(ent, B.comp(tix, 'new')))
+        ra = call(lambda: setattr(user, 'ref%d' % tix, newA))
+        rb = call(lambda: wB.add_component(ent, newB))
     elif sh == 'ref_del':
         ra = call(lambda: delattr(user, 'ref%d' % tix))
         rb = call(lambda: wB.remove_component(ent, T) and None)
